@@ -4,6 +4,7 @@
 # 4. related tests with change (must pass), 5. ./check Cxx against the changed worktree (should report a VIOLATION)
 d="$1"; pid="$2"; shift 2
 wt=/tmp/seed/confirm_$pid
+LOCK="flock /tmp/seed/pytest.lock"; [ -n "$NOLOCK" ] && LOCK=""
 rm -rf "$wt"; git -C /repo worktree prune; git -C /repo worktree add -q --detach "$wt" HEAD || exit 9
 demo=$(ls "$d"/demo.py "$d"/test_demo.py 2>/dev/null | head -1)
 run_demo() { (cd "$wt" && PYTHONPATH="$wt/src:$wt" timeout 300 /venv/bin/python "$demo" > "$d/demo_$1.log" 2>&1; echo $?); }
@@ -13,7 +14,7 @@ git -C "$wt" apply "$d/patch.diff"
 git -C "$wt" diff --stat | tail -3
 echo "demo with change: exit $(run_demo seeded)"
 if [ $# -gt 0 ]; then
-  (cd "$wt" && PYTHONPATH="$wt/src:$wt" flock /tmp/seed/pytest.lock timeout 2400 /venv/bin/python -m pytest -q -p no:cacheprovider -o log_cli=false "$@" 2>&1 | tail -3)
+  (cd "$wt" && PYTHONPATH="$wt/src:$wt" $LOCK timeout 2400 /venv/bin/python -m pytest -q -p no:cacheprovider -o log_cli=false "$@" 2>&1 | tail -3)
 fi
 cd /verif && VERIF_REPO="$wt" timeout 1500 ./check "$pid" > "$d/check_$pid.log" 2>&1; echo "check $pid exit $?"
 grep -E "VIOLATION|KNOWN-FINDING|BROKEN" "$d/check_$pid.log" | cut -c1-300 | head -6
